@@ -157,9 +157,23 @@ func runTamper(tier string, seed int64, summaryPath, outPath string) {
 			v, _ := accountant.NewVertex(t, g.Hash, g.Hash, g.Weight+1, &sw)
 			return v
 		}
-		for k := 0; k < 2; k++ {
-			withData, counter := k == 1 || bi%2 == 1, k == 1
+		mkSelf := func(salt int) accountant.Vertex {
+			t, err := transaction.New(fmt.Sprintf("self-%d-%d", bi, salt), spice.New(0, 0), []byte("self-addressed contract"), iw.Address(), &iw)
+			if err != nil {
+				panic(err)
+			}
+			if _, err := t.Sign(&iw, ver); err != nil {
+				panic(err)
+			}
+			v, _ := accountant.NewVertex(t, g.Hash, g.Hash, g.Weight+1, &sw)
+			return v
+		}
+		for k := 0; k < 3; k++ {
+			withData, counter := k >= 1 || bi%2 == 1, k >= 1
 			v0 := mkBase(withData, counter, k)
+			if k == 2 { // a countersigned transaction whose issuer is also its receiver (self-addressed contract)
+				v0 = mkSelf(k)
+			}
 			v1 := mkBase(true, counter, k+10)
 			var ms []mutant
 			add := func(kind string, signed bool, f func(v *accountant.Vertex)) {
